@@ -113,7 +113,12 @@ fn gen_group(r: &mut Rng, cfg_bits: u64, v: &Voc, depth: u32) -> Vec<Elem> {
         out.push(Elem::Filter(match r.below(4) { 0 => format!("?n > {}", k), 1 => format!("?n <= {}", k), 2 => format!("(?n + 1) >= {}", k), _ => format!("?n != {}", k) }));
     }
     if cfg_bits & 256 != 0 && depth == 0 && r.chance(1, 2) { let g = if r.chance(1, 2) { "?g".to_string() } else { format!("<http://e/g{}>", r.below(3)) }; let ka = 1 + r.usize(2); let kb = 1 + r.usize(2); out.push(Elem::Union(vec![Elem::Graph { g, bgp: gen_bgp(r, v, &vars, ka, 0) }], vec![Elem::Bgp(gen_bgp(r, v, &vars, kb, 1))])); }
-    if cfg_bits & 2 != 0 && r.chance(1, 2) { let g = if r.chance(1, 2) { "?g".to_string() } else { format!("<http://e/g{}>", r.below(3)) }; let kk = 1 + r.usize(2); let sh = r.below(2); let bgp = gen_bgp(r, v, &vars, kk, sh);
+    if cfg_bits & 2 != 0 && r.chance(1, 2) { let g = if r.chance(1, 2) { "?g".to_string() } else { format!("<http://e/g{}>", r.below(3)) }; let kk = 1 + r.usize(2); let sh = r.below(2); let mut bgp = gen_bgp(r, v, &vars, kk, sh);
+        if cfg_bits & 4096 != 0 && g == "?g" {
+            // the graph variable also stands in a triple position inside its own block, and / or is bound by the enclosing group first
+            if r.chance(1, 2) { let x = vars[r.usize(2)].to_string(); bgp.push(if r.chance(1, 2) { TP { s: "?g".into(), p: v.p(r), o: x } } else { TP { s: x, p: v.p(r), o: "?g".into() } }); }
+            if r.chance(1, 2) { if let Some(Elem::Bgp(main)) = out.first_mut() { main.push(TP { s: vars[r.usize(2)].to_string(), p: v.p(r), o: "?g".into() }); } }
+        }
         // the same block once more under another graph variable / graph: look-alike sub-plans for the optimizer's memo table
         if cfg_bits & 2048 != 0 && r.chance(1, 2) { let g2 = if g == "?g" || r.chance(1, 2) { "?h".to_string() } else { "?g".to_string() }; out.push(Elem::Graph { g: g2, bgp: bgp.clone() }); }
         out.push(Elem::Graph { g, bgp }); }
@@ -147,9 +152,12 @@ impl Prop for C02 {
         let v = Voc { nn: if big { 14 } else if dense { 2 + r.below(2) } else { 3 + r.below(6) }, np: if dense { 2 } else { 2 + r.below(3) } };
         let nq = if big { 150 + r.usize(250) } else if dense { 15 + r.usize(30) } else { 5 + r.usize(70) };
         let mut quads = vec![];
+        let bits = cfg.next();
+        let graph_terms = bits & 4096 != 0;
         for _ in 0..nq {
-            let s = format!("http://e/n{}", r.below(v.nn)); let p = format!("http://e/p{}", r.below(v.np));
-            let o = match r.below(8) { 0 => format!("v{}", r.below(3)), _ => format!("http://e/n{}", r.below(v.nn)) };
+            // with `graph_terms`, some subjects and objects are IRIs that name graphs (g0..g2 may exist as graphs, g3 never does)
+            let s = if graph_terms && r.chance(1, 8) { format!("http://e/g{}", r.below(4)) } else { format!("http://e/n{}", r.below(v.nn)) }; let p = format!("http://e/p{}", r.below(v.np));
+            let o = match r.below(8) { 0 => format!("v{}", r.below(3)), 1 if graph_terms => format!("http://e/g{}", r.below(4)), _ => format!("http://e/n{}", r.below(v.nn)) };
             let g = if r.chance(1, 4) { Some(format!("http://e/g{}", r.below(3))) } else { None };
             quads.push((s.clone(), p.clone(), o.clone(), g));
             if r.chance(1, 12) { quads.push((s, p, o, Some(format!("http://e/g{}", r.below(3))))); } // the same triple in several graphs
@@ -157,7 +165,6 @@ impl Prop for C02 {
         if cfg.chance(1, 2) { for _ in 0..(3 + r.usize(12)) { quads.push((format!("http://e/n{}", r.below(v.nn)), "http://e/num".to_string(), format!("{}", r.below(10)), if r.chance(1, 5) { Some(format!("http://e/g{}", r.below(3))) } else { None })); } }
         let empty_graphs = if r.chance(1, 3) { vec!["http://e/gempty".to_string()] } else { vec![] };
         let stale_extra = (0..r.usize(30)).map(|_| (format!("http://e/n{}", r.below(v.nn)), format!("http://e/p{}", r.below(v.np + 1)), format!("http://e/n{}", r.below(v.nn)))).collect();
-        let bits = cfg.next();
         let body = gen_group(&mut r, bits, &v, 0);
         let mut av = vec![]; all_vars(&body, &mut av); av.sort(); av.dedup();
         let plain = cfg.chance(1, 2);
